@@ -17,9 +17,9 @@ from .. import env, coq, runner, gates, tables, opsem, circuits as gcirc, mcircu
 
 LEVEL = 'translation_validation'
 META = dict(
-    text='Translation validation with proven components. Coq theorems: the trace-equivalence checker run on the real output of every "move, never change" transformer is sound (what it accepts is obtained from the input by exchanging adjacent operations that share no qubit, no measurement key and no measured/controlling key pair), the projection lemma (same identified operations + equal per-resource subsequences => trace equivalent), trace-equivalent operation lists compute the same tensor for every ring, rank and input and keep every per-key measurement order; every constant gauge emitted by the gauge-compiling transformers satisfies post . G . pre = G\' exactly in Q(zeta_8) (or to 1e-9 with floats where entries are not in the field) and every dynamical-decoupling base sequence multiplies to a scalar. On every run each exported transformer x options (tags_to_ignore, deep, tolerances, strategies) is executed on generated circuits (unitary, measured, classically controlled, tagged, nested, parameterised) and its output is compared with its input inside Coq through the reference semantics: same unitary up to global phase, or same joint distribution of per-key measurement records with the same conditional state on the qubits that are not terminally measured; defer/dephase/drop_terminal_measurements and lightcone_filter under their documented contracts; ignored-tag operations untouched, sub-circuits untouched unless deep, argument unchanged.',
-    note='Level translation_validation: the quantifier over programs is sampled for every rewriting pass; only the reorder-only family is decided by a theorem applied to each real output. Trusted: Coq kernel; float instance (tolerance 1e-6) for the numeric comparison; each operation\'s own cirq.unitary / cirq.kraus / measurement description (tied to the documented matrices by C03/C04/C09) and CircuitOperation.mapped_circuit for flattening (C12); Python adapters (operation identification by Cirq equality, resource extraction through cirq.measurement_key_objs / cirq.control_keys). Routing, target gatesets and analytical decompositions exported from the same package belong to C07/C15.',
-    technique='Rocq/Coq proof of a sound trace-equivalence validator + exact gauge identities in Q(zeta_8) + vm_compute translation validation of every transformer output against the reference semantics',
+    text='Translation validation with proven components. Coq theorems: the trace-equivalence validator run on the real output of every "move, never change" transformer is sound AND complete (it accepts exactly the reorderings obtained by exchanging adjacent operations that share no qubit, no measurement key and no measured/controlling key pair), the projection lemma, trace-equivalent operation lists compute the same tensor for every ring, rank and input and keep every per-key measurement order; every constant gauge emitted by the gauge-compiling transformers satisfies (post0 x post1) . G\' . (pre0 x pre1) = c . G with |c| = 1 exactly in Q(zeta_8) (float instance to 2^-30 where entries are outside the field) and every dynamical-decoupling base sequence multiplies to a scalar; the phase-tracking loop of eject_z keeps the invariant Phi(tracked phases) . emitted = original prefix and emits an equal circuit for every denotation satisfying the commutation laws. On every run each exported transformer x options (tags_to_ignore, deep, tolerances, strategies) is executed on generated circuits (unitary, measured, classically controlled, tagged, nested, parameterised) and its output is compared with its input inside Coq through the reference semantics: same unitary up to global phase, or same joint distribution of per-key measurement records with the same conditional state on the qubits that are not terminally measured; defer/dephase/drop_terminal_measurements, lightcone_filter and the symbolized merge under their documented contracts; every branch of every gauge selector is enumerated with a scripted prng; the eject_z model is compared with the real transformer; ignored-tag operations untouched, sub-circuits untouched unless deep, argument unchanged.',
+    note='Level translation_validation: the quantifier over programs is sampled for every rewriting pass; only the reorder-only family is decided by a theorem applied to each real output (and eject_z by a model theorem plus correspondence over a restricted alphabet). Trusted: Coq kernel (primitive floats for the float-instance theorem); float instance (tolerance 1e-6) for the numeric comparison; each operation\'s own cirq.unitary / cirq.kraus / measurement description (tied to the documented matrices by C03/C04/C09) and CircuitOperation.mapped_circuit for flattening (C12); Python adapters (operation identification by Cirq equality, resources through cirq.measurement_key_objs / cirq.control_keys, cirq.phase_by as the phased gate of the eject_z correspondence). Routing, target gatesets and analytical decompositions exported from the same package belong to C07/C15; map_clean_and_borrowable_qubits is not exercised; RandomizedMeasurements changes the measured basis by design.',
+    technique='Rocq/Coq proof of a sound and complete trace-equivalence validator + exact gauge identities in Q(zeta_8) + model of the eject_z loop with its invariant + vm_compute translation validation of every transformer output against the reference semantics',
 )
 
 TOL = '0x1p-20'
@@ -1149,6 +1149,42 @@ def symbolized_stream(ctx, cirq, checks, case_no, n):
     return case_no
 
 
+def gauge_as_sweep_stream(ctx, cirq, mods, checks, case_no, n):
+    """GaugeTransformer.as_sweep: the returned parameterized circuit resolved with each returned resolver must mean the same as the input."""
+    import random
+    t, gc = cirq.transformers, cirq.transformers.gauge_compiling
+    trs = [('CZGaugeTransformer', t.CZGaugeTransformer, 'cz'), ('SqrtCZGaugeTransformer', t.SqrtCZGaugeTransformer, 'sqrt_cz'), ('CPhaseGaugeTransformer', gc.CPhaseGaugeTransformer, 'cphase'),
+           ('SpinInversionGaugeTransformer', t.SpinInversionGaugeTransformer, 'zz'), ('ISWAPGaugeTransformer', t.ISWAPGaugeTransformer, 'iswap'),
+           ('SqrtISWAPGaugeTransformer', t.SqrtISWAPGaugeTransformer, 'sqrt_iswap'), ('SYCGaugeTransformer', mods['cirq_google'].transformers.SYCGaugeTransformer, 'syc')]
+    for name, tr, kind in trs:
+        for k in range(n):
+            rng = random.Random(f'{ctx.seed}:as_sweep:{name}:{k}')
+            c = gen_layers(cirq, rng, twoq=GAUGE_TARGETS[kind](cirq, rng, mods) * 3 + [cirq.CNOT], n=rng.randint(2, 3), depth=rng.randint(2, 5))
+            cfg = Cfg(name, 'as_sweep', None, 'semantic')
+            seed = rng.randrange(1 << 30)
+            rep = dict(config=cfg.id, deep=False, ignore=False, circuit=repr(c), diagram=str(c), circuit_kind='gauge-as-sweep', prng_seed=seed, root_cause='')
+            before = snapshot(cirq, c)
+            try:
+                out, sweep = tr.as_sweep(c, N=2, prng=np.random.default_rng(seed))
+                resolved = [cirq.resolve_parameters(out, r) for r in sweep]
+            except Exception as e:
+                import traceback
+                ctx.violation(f'{name}:as_sweep:raises:{type(e).__name__}:{error_class(str(e))}', f'{cfg.id} raised {type(e).__name__}: {str(e)[:300]} on\n{c}', dict(kind='raises', error=traceback.format_exc()[-1500:], **rep))
+                continue
+            if snapshot(cirq, c) != before:
+                ctx.violation(f'{name}:as_sweep:input-modified', f'{cfg.id} modified its argument on\n{c}', dict(kind='input-modified', **rep))
+            for i, co in enumerate(resolved):
+                case_no += 1
+                if cirq.is_parameterized(co):
+                    ctx.violation(f'{name}:as_sweep:unresolved-symbols', f'{cfg.id}: the returned sweep does not resolve {sorted(cirq.parameter_names(co))} on\n{c}', dict(kind='sweep', **rep))
+                    break
+                expr, skind = semantic_check(cirq, rng, flatten_ops(cirq, c), flatten_ops(cirq, co), 'same')
+                checks.append(dict(case=case_no, what='semantics', stream=f'{cfg.id}:{skind}', expr=expr, cfg=cfg, desc=f'{cfg.id} resolver {i} on {str(c)[:400]}',
+                                   rep=dict(rep, output=repr(out), output_diagram=str(out), resolver_index=i)))
+                ctx.count(cfg.id, [rep['circuit'], i], True, sample=dict(transformer=cfg.id, circuit=str(c)[:300], output=str(out)[:300], resolver=i))
+    return case_no
+
+
 def randomized_measurements_stream(ctx, cirq, n):
     """RandomizedMeasurements changes the measured basis by design: only `the argument is not modified` applies."""
     import random
@@ -1245,6 +1281,7 @@ def run(ctx):
             run_case(ctx, cirq, cfg, circuit, kind, deep, ignore, checks, case_no)
     case_no = gauge_sweep_stream(ctx, cirq, mods, checks, case_no)
     case_no = symbolized_stream(ctx, cirq, checks, case_no, 8 * mult)
+    case_no = gauge_as_sweep_stream(ctx, cirq, mods, checks, case_no, 1 * mult)
     randomized_measurements_stream(ctx, cirq, 5 * mult)
     case_no = ejectz_model_stream(ctx, cirq, checks, case_no, 60 * mult)
     failed = evaluate(ctx, checks)
